@@ -165,8 +165,11 @@ package schedule
 //@   ensures[C07.plans-nonnil,C04,C05,C06,C33] (arr(result) == 0 || allocated(result)) && forall k :: 0 <= k && k < len(result) ==> result[k] != nil && allocated(result[k])
 //@   # a NUMA-local round plans on exactly the free pieces of that NUMA node's cores, within that node's free memory,
 //@   # with the workload's old cores handed over for affinity
-//@   assert[C04.numa-round,C33] before call doGetCPUPlans#1: arg0 == originCPUMap && arg1 == cpuMap && arg2 == availableResource.NUMAMemory[numaNodeID]
+//@   assert[C04.numa-round,C33] before call doGetCPUPlans#1: arg0 == originCPUMap && arg1 == cpuMap
 //@        && arg3 == shareBase && arg4 == maxFragmentCores && arg5 == req.CPURequest && arg6 == req.MemRequest
+//@   # the memory a NUMA-local round may use is bounded by that NUMA node's free memory AND by the node's free memory
+//@   # (instances placed on a NUMA node consume both)
+//@   assert[C04.numa-memory] before call doGetCPUPlans#1: arg2 <= availableResource.NUMAMemory[numaNodeID] && arg2 <= availableResource.Memory
 //@   assert[C04.numa-cores,C33] before call doGetCPUPlans#1: forall c string :: c in cpuMap ==> resourceInfo.Capacity.NUMA[c] == numaNodeID
 //@        && cpuMap[c] == resourceInfo.Capacity.CPUMap[c] - resourceInfo.Usage.CPUMap[c]
 //@   # the last round plans on what is left of the whole node
